@@ -25,7 +25,8 @@ def case_strategy(draw):
         "dup": [draw(st.integers(0, 10)), draw(st.integers(0, 10)), draw(st.sampled_from(["same-body", "nested-body"]))],
         "drop": draw(st.lists(st.integers(0, 30), min_size=0, max_size=2)),
         "extra": draw(st.lists(st.sampled_from(["zz", "yy"]), min_size=0, max_size=2, unique=True)),
-        "method": draw(st.sampled_from(["simulate", "importance", "assess"])),
+        # assess reads values and records nothing: the statement does not claim AddressReuse for it
+        "method": draw(st.sampled_from(["simulate", "importance", "importance"])),
     }
     return case
 
